@@ -276,6 +276,11 @@ func genSvcValue(t *rapid.T, label string) string {
 	if rapid.IntRange(0, 3).Draw(t, label+"_unk") == 0 {
 		toks = append(toks, fmt.Sprintf("key%d=%s", rapid.IntRange(7, 65534).Draw(t, label+"_unkk"), rapid.SampledFrom([]string{"abc", `"x=y"`, "ech", `"ech=fake"`}).Draw(t, label+"_unkv")))
 	}
+	if rapid.IntRange(0, 5).Draw(t, label+"_long") == 0 {
+		// a long parameter value (multi-config ech lists and long hints are several hundred bytes):
+		// a page of twenty such records is a response of well over 16 KiB
+		toks = append(toks, fmt.Sprintf("key%d=%s", rapid.IntRange(60000, 65000).Draw(t, label+"_longk"), strings.Repeat("v", rapid.IntRange(600, 1200).Draw(t, label+"_longl"))))
+	}
 	toks = rapid.Permutation(toks).Draw(t, label+"_perm")
 	if rapid.Bool().Draw(t, label+"_hasech") {
 		v := base64.StdEncoding.EncodeToString(hello.GenBytes(t, label+"_ech", rapid.IntRange(1, 40).Draw(t, label+"_echl")))
@@ -301,7 +306,7 @@ var (
 func TestC20(t *testing.T) {
 	rec := ev.Get("C20")
 	rec.Rule("state machine over a fake Cloudflare v4 API (zones lookup, paged dns_records with result_info as the real API reports it - count = items on this page -, PATCH; failures HTTP 403/404, success:false with and without error details, and 500 in the thorough tier): 1..3 zones with 0..60 HTTPS records whose value is a generated SvcParams string (alpn, no-default-alpn, port, hints, unknown keys, with/without one ech - random or already equal to one of the two lists the case publishes -, quoted/unquoted, any position) plus non-HTTPS records; actions publish(targets drawn from existing / missing / duplicate / unknown-zone names, config list fresh or repeated), edit the zone, switch a failure on/off. Model = copy of the store. Oracle after every publish: one result per target in order with the predicted status class; for every record: requested+existing+no failure -> tokens(value) == tokens(old value without ech) + exactly one ech == base64(list), priority/target kept; otherwise byte-for-byte unchanged; PATCH requests == distinct records whose value was not current; no request touches another record. distinct = (zone shape, target-list shape, failure set); non-trivial = at least one existing target")
-	rec.Mandatory("failure_then_recovery_scripted", "record_on_page_ge2", "duplicate_target", "existing_ech_replaced", "value_already_current", "failure_one_zone_only", "unknown_zone", "missing_record", "patch_failure", "current_in_other_form", "same_name_in_parent_and_child_zone")
+	rec.Mandatory("failure_then_recovery_scripted", "record_on_page_ge2", "duplicate_target", "existing_ech_replaced", "value_already_current", "failure_one_zone_only", "unknown_zone", "missing_record", "patch_failure", "current_in_other_form", "same_name_in_parent_and_child_zone", "listing_page_over_16k")
 	thorough := false
 	rapid.Check(t, func(t *rapid.T) {
 		cfAPIOnce.Do(func() {
@@ -336,10 +341,18 @@ func TestC20(t *testing.T) {
 			default:
 				n = rapid.IntRange(0, 8).Draw(t, "nrec")
 			}
+			heavy := n >= 20 && rapid.Bool().Draw(t, "heavy_values")
+			if heavy {
+				cl = append(cl, "listing_page_over_16k")
+			}
 			for i := 0; i < n; i++ {
 				rid++
+				val := genSvcValue(t, "v")
+				if heavy {
+					val = strings.TrimSpace(val + " key64999=" + strings.Repeat("w", 900))
+				}
 				z.Records = append(z.Records, &cfRecord{ID: fmt.Sprintf("rec%d", rid), Name: fmt.Sprintf("h%d.%s", i, z.Name), Type: "HTTPS",
-					Priority: rapid.IntRange(1, 3).Draw(t, "prio"), Target: rapid.SampledFrom([]string{".", "t.example."}).Draw(t, "target"), Value: genSvcValue(t, "v")})
+					Priority: rapid.IntRange(1, 3).Draw(t, "prio"), Target: rapid.SampledFrom([]string{".", "t.example."}).Draw(t, "target"), Value: val})
 				if rapid.IntRange(0, 5).Draw(t, "other") == 0 {
 					rid++
 					z.Records = append(z.Records, &cfRecord{ID: fmt.Sprintf("rec%d", rid), Name: fmt.Sprintf("h%d.%s", i, z.Name), Type: "A", Value: "192.0.2.1"})
